@@ -452,6 +452,9 @@ def cases(tier):
         if t:
             for j in range(16):
                 yield {"check": "schedules", "method": method, "workers": 1, "chroms": 4, "part": [j, 16]}
+    for method in ("none", "haar"):
+        for k in (17, 21, 27, 40) if t else (17, 21, 27):
+            yield {"check": "pools-many", "method": method, "chromosomes": k}
     for mask in range(16):
         yield {"check": "writers", "mask": mask}
 
@@ -481,6 +484,8 @@ def run(case, ctx):
             run_history(ctx, [(op, RNG_STATES[i % 3]) for i, op in enumerate(seq)])
     elif k == "schedules":
         run_schedules(case, ctx)
+    elif k == "pools-many":
+        run_pools_many(case, ctx)
     elif k == "writers":
         run_writers(case, ctx)
     else:
@@ -605,6 +610,40 @@ def run_schedules(case, ctx):
                 sub={"processes": procs},
             )
     ctx.sample("schedules", {"method": method, "workers": workers, "tasks": chroms, "schedules": n, "last": labels})
+
+
+# ---------------------------------------------------------------------------------------------
+def _child_many(method, k, procs):
+    """A bins table of k short chromosomes (k arm tasks) segmented with `procs` processes (a real pool for procs > 1)."""
+    names = ["chr%d" % (i + 1) for i in range(22)] + ["chrX", "chrY"] + ["chrUn_%d" % i for i in range(1, 40)]
+    rows = []
+    for ci, chrom in enumerate(names[:k]):
+        for i in range(3 + ci % 2):
+            log2 = round((0.4 if ci % 3 == 0 else -0.2) + 0.05 * _noise(i, ci), 6)
+            rows.append((chrom, 10000 + 5000 * i, 11000 + 5000 * i, "g%d_%d" % (ci, i // 2), log2, round(100 * 2**log2, 4), round(0.6 + 0.3 * abs(_noise(i, ci + 3)), 4)))
+    cna = CNA.from_rows(rows, ["chromosome", "start", "end", "gene", "log2", "depth", "weight"], {"sample_id": "S1"})
+    return {"result": C.canon(segmentation.do_segmentation(cna, method, processes=procs))}
+
+
+def run_pools_many(case, ctx):
+    method, k = case["method"], case["chromosomes"]
+    serial = forked(_child_many, method, k, 1)["result"]
+    ctx.transition()
+    for procs in (2, 3, 4, 5, 16):
+        rep = forked(_child_many, method, k, procs)
+        ctx.transition()
+        ctx.trace()
+        ctx.state(("pools-many", method, k, procs), nontrivial=True)
+        ctx.outcome(digest(rep["result"]))
+        if rep["result"] != serial:
+            ctx.violation(
+                "the table is the same with N real worker processes as with one",
+                f"real-pool/segment-{method}/many-arm-tasks/differs-from-serial",
+                observed=C.diff(serial, rep["result"]),
+                sub={"processes": procs, "chromosomes": k},
+            )
+    ctx.stratum("pools-many-chromosomes-%d" % k)
+    ctx.sample("pools-many", dict(case))
 
 
 # ---------------------------------------------------------------------------------------------
